@@ -62,8 +62,8 @@ func Profile() *world.Profile {
 	p.Ops = make([]int, world.NumOps)
 	for i, w := range map[int]int{world.OpYield: 5, world.OpWriteHeader: 0, world.OpWrite: 0, world.OpFlush: 0, world.OpNext: 4, world.OpNextSwallow: 1,
 		world.OpCancel: 0, world.OpMapExtra: 2, world.OpSeeExtra: 4, world.OpEcho: 0, world.OpMark: 4, world.OpCheckMark: 4, world.OpSetHeader: 3,
-		world.OpBefore: 1, world.OpRender: 1, world.OpRedirect: 0, world.OpStatus: 2, world.OpCookie: 1, world.OpSeeSvc: 2,
-		world.OpMapIface: 1, world.OpSeeIface: 3, world.OpInvoke: 2, world.OpApply: 1} {
+		world.OpBefore: 1, world.OpRender: 1, world.OpRedirect: 1, world.OpStatus: 2, world.OpCookie: 1, world.OpSeeSvc: 2,
+		world.OpMapIface: 1, world.OpSeeIface: 3, world.OpInvoke: 2, world.OpApply: 1, world.OpSeeBody: 2, world.OpMapRH: 1, world.OpMutQuery: 2} {
 		p.Ops[i] = w
 	}
 	return p
